@@ -889,7 +889,7 @@ theorem emit_body1 (T : Tables) (hC : contOK T = true) (cfg : Cfg) (s : S1) (b :
     (hB : (body1 T cfg s b).core.halt = none) (o : Obj) (tl : List Obj)
     (hc : (body1 T cfg s b).core.code = o :: tl) :
     tl = [] ∧ ((isCloser b = true ∧ FreshAt o (body1 T cfg s b)) ∨
-      (isCloser b = false ∧ ∃ s0 : S1, FreshAt o s0 ∧ s0.pos = s.pos ∧
+      (isCloser b = false ∧ (∃ t, s.mode = .tok t) ∧ ∃ s0 : S1, FreshAt o s0 ∧ s0.pos = s.pos ∧
         body1 T cfg s b = plainStep1 T s0 .value b)) := by
   unfold body1 at hB hc ⊢
   cases hm : s.mode with
@@ -950,7 +950,7 @@ theorem emit_body1 (T : Tables) (hC : contOK T = true) (cfg : Cfg) (s : S1) (b :
                   unfold plainStep1; simp only [hv, ha, kindOf]
                 rw [this] at hB
                 simp [S1.fail, Core.fail] at hB
-          · exact Or.inr ⟨by simpa using hcl, s0, ⟨hs0mode, hst, hss, hcode0, hlive0'⟩, hs0pos, rfl⟩
+          · exact Or.inr ⟨by simpa using hcl, ⟨t, rfl⟩, s0, ⟨hs0mode, hst, hss, hcode0, hlive0'⟩, hs0pos, rfl⟩
         · rw [h2] at hB
           simp only [] at hB
           rw [closeList_no_starts hss] at hB
@@ -1023,6 +1023,7 @@ theorem locate (T : Tables) (hT : tablesOK T = true) (hC : contOK T = true) (cfg
         run1 T { cfg with one := true } s bs = run1 T { cfg with one := false } s bs) ∧
       (∀ p, (run1 T { cfg with one := true } s bs).core.halt = some (.one p) →
         ∃ o, (run1 T { cfg with one := true } s bs).core.code = [o] ∧ s.pos ≤ p ∧ p ≤ s.pos + bs.length ∧
+          ((∀ t, s.mode ≠ .tok t) → s.pos + 1 ≤ p) ∧
           Rel [o] p (run1 T { cfg with one := false } s bs)
             (run1 T { cfg with one := false } init1 (bs.drop (p - s.pos)))) := by
   induction bs with
@@ -1078,12 +1079,12 @@ theorem locate (T : Tables) (hT : tablesOK T = true) (hC : contOK T = true) (cfg
         simp only [run1] at this
         refine ⟨this.1, ?_⟩
         intro p hp
-        obtain ⟨o, ho, hle, hge, hrel⟩ := this.2 p hp
+        obtain ⟨o, ho, hle, hge, _, hrel⟩ := this.2 p hp
         have hle' : s.pos + 1 ≤ p := hle
         have hge' : p ≤ s.pos + 1 + rest.length := hge
         have hrel' : Rel [o] p (List.foldl (step1 T { cfg with one := false }) { B with pos := s.pos + 1 } rest)
             (List.foldl (step1 T { cfg with one := false }) init1 (List.drop (p - (s.pos + 1)) rest)) := hrel
-        refine ⟨o, ho, by omega, by simp only [List.length_cons]; omega, ?_⟩
+        refine ⟨o, ho, by omega, by simp only [List.length_cons]; omega, fun _ => hle', ?_⟩
         have hd : p - s.pos = (p - (s.pos + 1)) + 1 := by omega
         rw [hd, List.drop_succ_cons]
         exact hrel'
@@ -1106,11 +1107,11 @@ theorem locate (T : Tables) (hT : tablesOK T = true) (hC : contOK T = true) (cfg
         obtain ⟨htl, hcase⟩ := hem
         subst htl
         refine ⟨o, by simpa using e2, ?_⟩
-        rcases hcase with ⟨hcl, hfresh⟩ | ⟨hcl, s0, hfresh, hpos0, hEq⟩
+        rcases hcase with ⟨hcl, hfresh⟩ | ⟨hcl, ⟨tm, htm⟩, s0, hfresh, hpos0, hEq⟩
         · -- the byte that completed the form belongs to it
           simp only [hcl, if_true] at hp
           subst hp
-          refine ⟨by omega, by simp only [List.length_cons]; omega, ?_⟩
+          refine ⟨by omega, by simp only [List.length_cons]; omega, fun _ => Nat.le_refl _, ?_⟩
           have hd : s.pos + 1 - s.pos = 0 + 1 := by omega
           rw [hd, List.drop_succ_cons, List.drop_zero]
           have hf : FreshAt o ({ B with pos := s.pos + 1 } : S1) :=
@@ -1120,7 +1121,7 @@ theorem locate (T : Tables) (hT : tablesOK T = true) (hC : contOK T = true) (cfg
         · -- the byte ended a token and is looked at again by the fresh reader
           simp only [hcl, Bool.false_eq_true, if_false] at hp
           subst hp
-          refine ⟨by omega, by simp only [List.length_cons]; omega, ?_⟩
+          refine ⟨by omega, by simp only [List.length_cons]; omega, fun hnt => absurd htm (hnt tm), ?_⟩
           rw [Nat.sub_self, List.drop_zero]
           have hrel0 : Rel [o] s.pos s0 init1 := by
             have := fresh_rel hfresh
@@ -1162,7 +1163,7 @@ theorem readOne_cont (T : Tables) (hT : tablesOK T = true) (hC : contOK T = true
       rcases hcase with hone | ⟨hnone, _⟩
       · rw [hh] at hone
         cases hone
-        obtain ⟨o2, hc2, _, _, hrel⟩ := hloc.2 pos hh
+        obtain ⟨o2, hc2, _, _, _, hrel⟩ := hloc.2 pos hh
         rw [hc2] at hcode
         cases hcode
         have hrel' : Rel [o] pos (run1 T { cfg with one := false } init1 bs)
@@ -1211,5 +1212,73 @@ theorem readOne_cont (T : Tables) (hT : tablesOK T = true) (hC : contOK T = true
       simp [init1]
   · cases h
   · cases h
+
+/-! ### one-form mode against whole-text mode when no form is returned -/
+
+/-- one-form mode reports an error exactly as whole-text mode does (same error, same objects before it) -/
+theorem one_err_all (T : Tables) (cfg : Cfg) (bs : List Byte) (e : Err) (code : List Obj)
+    (h : readAll T { cfg with one := true } bs = .err e code) :
+    readAll T { cfg with one := false } bs = .err e code := by
+  have hlock := one_vs_all T cfg bs init1 (by simp [init1]) (by simp [init1])
+  unfold readAll finish1 at h ⊢
+  rcases hlock with heq | ⟨o2, tl2, q, hh1, _, _⟩
+  · rw [← heq]
+    cases hh : (run1 T { cfg with one := true } init1 bs).core.halt with
+    | some x => simpa [hh] using h
+    | none =>
+      simp only [hh] at h ⊢
+      rw [← finishCore_cfg T { cfg with one := true } { cfg with one := false } rfl rfl]
+      exact h
+  · simp only [hh1, resultOf] at h
+    cases h
+
+/-- one-form mode finds nothing to read exactly when the whole text holds no object -/
+theorem one_eof_all (T : Tables) (hT : tablesOK T = true) (hC : contOK T = true) (cfg : Cfg) (bs : List Byte)
+    (h : readOne T cfg bs = .error .eof) (code : List Obj) (p : Nat)
+    (hok : readAll T { cfg with one := false } bs = .ok code p) : code = [] := by
+  have hloc := locate T hT hC cfg bs init1 (by simp [init1]) (by simp [init1])
+    (by simpa [init1] using inv_init)
+  unfold readOne at h
+  split at h
+  · cases h
+  · rename_i pos hall
+    unfold readAll finish1 at hall
+    cases hh : (run1 T { cfg with one := true } init1 bs).core.halt with
+    | some x =>
+      simp only [hh] at hall
+      obtain ⟨hcode, hcase⟩ := resultOf_ok_inv hall
+      rcases hcase with hone | ⟨hnone, _⟩
+      · obtain ⟨o2, hc2, _⟩ := hloc.2 pos hone
+        rw [hc2] at hcode; cases hcode
+      · rw [hh] at hnone; cases hnone
+    | none =>
+      simp only [hh] at hall
+      obtain ⟨_, heq⟩ := hloc.1 hh
+      obtain ⟨hcode, hcase⟩ := resultOf_ok_inv hall
+      have hg := good_finishCore T { cfg with one := true } (run1 T { cfg with one := true } init1 bs).mode
+        (run1 T { cfg with one := true } init1 bs).tok (good_of_none hh)
+      have hFh : (finishCore T { cfg with one := true } (run1 T { cfg with one := true } init1 bs).core
+          (run1 T { cfg with one := true } init1 bs).mode (run1 T { cfg with one := true } init1 bs).tok).halt = none := by
+        rcases hcase with h1 | ⟨h1, _⟩
+        · rcases hg with h0 | ⟨e, _, h3⟩
+          · rw [h0] at h1; cases h1
+          · rw [h3] at h1; cases h1
+        · exact h1
+      have hf := finishCore_cfg T { cfg with one := true } { cfg with one := false } rfl rfl
+        (run1 T { cfg with one := true } init1 bs).core (run1 T { cfg with one := true } init1 bs).mode
+        (run1 T { cfg with one := true } init1 bs).tok
+      unfold readAll finish1 at hok
+      rw [← heq, hh] at hok
+      simp only [] at hok
+      rw [← hf] at hok
+      unfold resultOf at hok
+      rw [hFh] at hok
+      simp only [← hcode] at hok
+      cases hok
+      rfl
+  · rename_i e code' hall
+    cases h
+    rw [one_err_all T cfg bs _ _ hall] at hok
+    cases hok
 
 end SlipVerif.Reader
